@@ -71,6 +71,9 @@ ASSUMPTIONS = [
     "'modifies the lists or dictionaries passed to it': the list/dict structure (nested lists, tuples, dicts, atoms) "
     "must be unchanged and must still hold the same element objects; a change of the *state of a library object "
     "stored in* the list is only counted (arg_element_state_changed), not flagged",
+    "'modifying a returned list never changes what any later call returns' is read within its sentence: the returned "
+    "values of theory-module queries.  A container method that hands back the container's own list (NoteContainer."
+    "add_notes returns self.notes, Bar.empty returns self.bar) exposes that object's state by design and is not judged",
     "parameters the documentation reserves for the library's own recursion (chords.from_shorthand 'slash') are not "
     "caller-facing and are not passed",
     "'operating on' an object = calling its public methods and container operators with fresh caller-owned arguments; "
@@ -578,6 +581,30 @@ _BATTERY_OK = {"memo": set(), "fft": set()}
 _BATTERY_BAD = {}
 
 
+def battery_known_ok(kind, key):
+    """The battery's verdict is a function of the canonical state, so one evaluation per state and *run* is enough:
+    a passed state is remembered in this worker and, through an empty marker file in this run's temp directory,
+    by the other workers of the same run (never across runs)."""
+    if key in _BATTERY_OK[kind]:
+        return True
+    d = api.TMP.get("dir")
+    if d and os.path.exists(os.path.join(d, "ok_" + kind, key)):
+        _BATTERY_OK[kind].add(key)
+        return True
+    return False
+
+
+def battery_mark_ok(kind, key):
+    _BATTERY_OK[kind].add(key)
+    d = api.TMP.get("dir")
+    if d:
+        try:
+            os.makedirs(os.path.join(d, "ok_" + kind), exist_ok=True)
+            open(os.path.join(d, "ok_" + kind, key), "w").close()
+        except OSError:
+            pass
+
+
 class MemoSpec(BfsSpec):
     """State = the whole module state.  canon = sha1 of the canonical rendering of *every* slot found by
     introspection (module data attributes, class attributes, mutable default arguments) including the sharing
@@ -668,7 +695,7 @@ class MemoSpec(BfsSpec):
         S.outcome("|".join(diff))
         if diff:
             S.count("memo_warm_state_checks")
-        if key in _BATTERY_OK["memo"]:
+        if battery_known_ok("memo", key):
             S.count("memo_battery_skipped_same_state")
             return
         # the battery's verdict is a function of the canonical state, so a failing state is remembered as well
@@ -677,7 +704,7 @@ class MemoSpec(BfsSpec):
             bad = compare_battery(SPACE, battery(), "battery")
             S.count("memo_battery_evaluations")
             if not bad:
-                _BATTERY_OK["memo"].add(key)
+                battery_mark_ok("memo", key)
                 return
             bad = _BATTERY_BAD[key] = [(q, w, g) for q, w, g in bad[:6]] + [None] * max(0, len(bad) - 6)
         real = [x for x in bad if x is not None]
@@ -773,12 +800,12 @@ class FftSpec(BfsSpec):
         key = st.canon()
         la = _lib("mingus.extra.fft")._last_asked
         S.outcome("cursor=%s" % (la[0] if isinstance(la, tuple) else la,))
-        if key in _BATTERY_OK["fft"]:
+        if battery_known_ok("fft", key):
             return
         bad = compare_battery(FFT_SPACE, fft_battery(), "fft battery")
         S.count("fft_battery_evaluations")
         if not bad:
-            _BATTERY_OK["fft"].add(key)
+            battery_mark_ok("fft", key)
             return
         q, want, got = bad[0]
         S.problem("fft.find_notes(...) from this cursor state", want, got, detail={"differing": len(bad)}, tags={"kind": "fft-battery"})
@@ -1088,8 +1115,8 @@ def explore(ctx):
 
     if ctx.want("memo"):
         keys = ctx.pick(KEYS_Q, KEYS_T)
-        with_fft = ctx.pick(False, True)
-        spec = MemoSpec(keys, with_fft)
+        with_fft = ctx.pick(False, True)        # fft actions only in the depth-bounded broad search (the cursor is clause fft's subject)
+        spec = MemoSpec(keys, False)
         cap = ctx.pick(5000, 200000)
         ctx.bound("memo_keys", keys)
         ctx.bound("memo_actions", len(spec.actions()))
